@@ -539,7 +539,9 @@ fn gen_op_pool(rng: &mut Rng, k: usize, d: u8, light: bool, pool: &[u8]) -> Op {
             Op::P { d, verts, exact: rng.chance(1, 2) }
         }
         "X" => {
-            let dd = if d >= 29 { 0 } else { rng.range(0, if light { 1 } else { 3 }).min((29 - d) as u64) as u8 };
+            // delta_depth >= 1: with 0 every edge function of the library panics on a shift overflow
+            // (a pure-function matter, property C14, not ours); only depth 29 is left with 0
+            let dd = if d >= 29 { 0 } else { rng.range(1, if light { 2 } else { 3 }).min((29 - d) as u64) as u8 };
             // base cells 4..=11 only: for north-polar-cap cells the library prints a debug line
             // (src/lib.rs `npc_egde_direction_from_neighbour`), and taking the stdout lock inside
             // a racing thread would add a synchronisation edge the harness must not introduce
